@@ -201,6 +201,7 @@ class SymbolKindTable:
                         tbl[name] = kind
 
         else:
+            self._changed = True
             tbl[name] = kind
 
     def get(self, phase_name, name):
